@@ -767,7 +767,8 @@ def oracle(case, obs):
             ex = _exact_linspace(a, b, n)[i]
             off = doc.get("offset", [0.0] * len(row))[k]
             got = Fraction(groups[t][0][doc["motors"][k]]) - Fraction(off)
-            tol = Fraction(max(abs(a), abs(b), abs(off), 5e-324)) * Fraction(1, 2 ** 48)
+            # relative part + the absolute resolution of binary64 (subnormal spacing)
+            tol = Fraction(max(abs(a), abs(b), abs(off))) * Fraction(1, 2 ** 48) + 4 * Fraction(5e-324)
             if abs(got - ex) > tol:
                 return "point %d motor %d: %r is not start + i*(stop-start)/(num-1)" % (t, doc["motors"][k], float(got))
     # metadata consistent with what was done
